@@ -1443,7 +1443,7 @@ class VacancyMediated(object):
                            for PS in
                            [self.GFstarset.states[s[0]] for s in self.GFstarset.stars]])
             self.GFvalues[vTK] = GF.copy()
-            self.Lvvvalues[vTK] = L0vv
+            self.Lvvvalues[vTK] = L0vv.copy()
             self.etavvalues[vTK] = etav
 
         # 2. set up probabilities for solute-vacancy configurations
@@ -1598,7 +1598,8 @@ class VacancyMediated(object):
                            - biasVvec[self.OSindices]
                            ) / self.N
 
-        return L0vv, D0ss + L1ss, D0sv + L1sv, D0vv + D2vv + L1vv
+        # L0vv is the cached array (or the GF calculator's own): hand out a copy
+        return L0vv.copy(), D0ss + L1ss, D0sv + L1sv, D0vv + D2vv + L1vv
 
 
 yaml.add_representer(vacancyThermoKinetics, vacancyThermoKinetics.vacancyThermoKinetics_representer)
